@@ -502,6 +502,10 @@ class Blockwise(Expr):
     def _name(self):
         if self.operation:
             head = funcname(self.operation)
+            if head == "operation":
+                # a staticmethod literally called ``operation`` identifies nothing:
+                # classes defining one would all share the prefix "operation"
+                head = funcname(type(self)).lower()
         else:
             head = funcname(type(self)).lower()
         return head + "-" + _tokenize_deterministic(*self.operands)
